@@ -206,6 +206,27 @@ func roundTrip(c config, plain string, w wpath, prev string, thorough bool) []fi
 		if res := read(efs2, "d/f", rpaths[0]); !res.OK() || res.Data != plain {
 			add("same-settings-cannot-read", "read back by a filespace with the same secret, salt and host binding", fmt.Sprintf("err=%q panic=%q", res.Err, res.Panic), witness{Part: "roundtrip", R: "ReadFile"})
 		}
+		// a child view is the same filespace with another root (a name-space operation): what the parent
+		// wrote is read through the child and vice versa, also by an independent same-settings filespace
+		child, err := efs.Filespace("d")
+		if err != nil {
+			add("child-view-failed", "all name-space operations behave exactly as on the underlying filespace", "Filespace(d): "+err.Error(), witness{Part: "roundtrip"})
+			return
+		}
+		for _, r := range []rpath{rpaths[0], rpaths[2]} {
+			if res := read(child, "f", r); !res.OK() || res.Data != plain {
+				add("child-view-cannot-read-parent-data", "read back identically by a filespace with the same secret, salt and host binding; name-space operations behave as on the underlying filespace", fmt.Sprintf("d/f written through the parent, read as f through Filespace(d) via %s: err=%q panic=%q equal=%v", r.Name, res.Err, res.Panic, res.Data == plain), witness{Part: "roundtrip", R: r.Name})
+			}
+		}
+		if r := write(child, "h", plain, w); !r.OK() {
+			add("write-failed", "whatever is written is read back", fmt.Sprintf("write through the child view failed: err=%q panic=%q", r.Err, r.Panic), witness{Part: "roundtrip"})
+			return
+		}
+		for who, fs := range map[string]filesystem.Filespace{"the parent": efs, "an independent filespace with the same settings": efs2} {
+			if res := read(fs, "d/h", rpaths[0]); !res.OK() || res.Data != plain {
+				add("parent-cannot-read-child-view-data", "read back identically by a filespace with the same secret, salt and host binding; name-space operations behave as on the underlying filespace", fmt.Sprintf("h written through Filespace(d), read as d/h by %s: err=%q panic=%q equal=%v", who, res.Err, res.Panic, res.Data == plain), witness{Part: "roundtrip", R: "ReadFile"})
+			}
+		}
 	})
 	return out
 }
@@ -744,7 +765,7 @@ func replay(w json.RawMessage) (*fw.Violation, error) {
 
 func init() {
 	fw.Register(&fw.Check{ID: "C05", Level: "fault_enumeration",
-		Rule: "configurations = cipher{raw AES-GCM, tagged} x base{memory, disk} x secret{alpha,beta,''} x salt{salt1,salt2,''} x host-binding{off,on}; plaintexts of length {0,1,16,17,4096,70000,(thorough: 15,33,140001)}; write path {WriteFile, Writer 1/3 chunks} x previous content {absent, shorter, longer} x read path {ReadFile, Reader buf 1/7/4096}; every other (secret,salt) of the pool plus one concatenation-colliding pair; two filespaces built from one caller-owned secret buffer with spare capacity and different salts, and the caller wiping its buffers afterwards; EVERY truncation length 0..N-1 (also of the 70 KB / 140 KB files on the whole-file paths; the other paths of long files: every length near both ends, every 97th between) and EVERY single-byte corruption (N positions x 255 values for short files; 3 values and strided interior positions for files > 300 bytes) of the stored bytes, each read on a fresh base; two filespaces (different secrets) x two files each written in alternation over all plaintext pairs x write-path pairs; name-space ops in lock-step with the tree model; plus 2-3 filespaces with different (and equal) secrets used from concurrent goroutines (write then read own file, then try every other tenant's secret on it) under every schedule with <= 2 (quick) / 3 (thorough) preemptions, with the race oracle on the encryptfs packages. distinct = cases, all non-trivial (each runs the real cipher)",
+		Rule: "configurations = cipher{raw AES-GCM, tagged} x base{memory, disk} x secret{alpha,beta,''} x salt{salt1,salt2,''} x host-binding{off,on}; plaintexts of length {0,1,16,17,4096,70000,(thorough: 15,33,140001)}; write path {WriteFile, Writer 1/3 chunks} x previous content {absent, shorter, longer} x read path {ReadFile, Reader buf 1/7/4096}, every case also across a child view (parent writes / child reads, child writes / parent and an independent same-settings filespace read); every other (secret,salt) of the pool plus one concatenation-colliding pair; two filespaces built from one caller-owned secret buffer with spare capacity and different salts, and the caller wiping its buffers afterwards; EVERY truncation length 0..N-1 (also of the 70 KB / 140 KB files on the whole-file paths; the other paths of long files: every length near both ends, every 97th between) and EVERY single-byte corruption (N positions x 255 values for short files; 3 values and strided interior positions for files > 300 bytes) of the stored bytes, each read on a fresh base; two filespaces (different secrets) x two files each written in alternation over all plaintext pairs x write-path pairs; name-space ops in lock-step with the tree model; plus 2-3 filespaces with different (and equal) secrets used from concurrent goroutines (write then read own file, then try every other tenant's secret on it) under every schedule with <= 2 (quick) / 3 (thorough) preemptions, with the race oracle on the encryptfs packages. distinct = cases, all non-trivial (each runs the real cipher)",
 		Run: run, Replay: replay,
 		Assumptions: []string{"crypto/rand.Reader is replaced by a deterministic never-repeating stream (nonce freshness stays observable)", "cryptographic strength is out of scope; host binding is exercised but a binding mismatch is not required to fail (the statement does not demand it)", "secrecy = stored bytes do not contain the plaintext (>= 8 bytes) nor its first 16 bytes"}})
 }
